@@ -1,13 +1,27 @@
 import Anndb.Model.WalKeys
+import Anndb.Proofs.WalFlush
 import Anndb.Proofs.CodecLemmas
 import Anndb.Generated
 /-!
 # C06 — Badger raft log honours the raft storage contract, per group, across reopen
 
-This file: the key layout (injectivity, prefix disjointness) and group isolation on the shared
-database. The refinement of the per-group store model (`Model/Wal.lean`, which the `wal` engine
-ties to the real `badgerWAL` *and* whose specification `Mem` it ties to etcd's real
-`MemoryStorage`, transcript-exact) to the specification is in `Proofs/WalRefine.lean`.
+This file: the key layout (injectivity, prefix disjointness), group isolation on the shared
+database, and the refinement of the per-group store model (`Model/Wal.lean`, which the `wal`
+engine ties to the real `badgerWAL` *and* whose specification `Mem` it ties to etcd's real
+`MemoryStorage`, transcript-exact) to that specification:
+
+* `store_refines_memorystorage` — for every history of legal calls (batches of consecutive entries
+  with a hard state, local snapshot + compaction, reopen of the database) that `MemoryStorage`
+  accepts from its initial state, the Badger-backed store accepts it, keeps its representation
+  invariant `WF` (consecutive keys, dummy = snapshot entry, every cached value equal to what a
+  scan returns) and stands for exactly the `MemoryStorage` state (`abs`);
+* `reads_agree` — in every such state `FirstIndex`, `LastIndex`, `Term i` (value and error class),
+  `Snapshot` and the hard state are what `MemoryStorage` answers;
+* `reopen_changes_nothing` — dropping all caches (`NewBadgerWAL` over the same database) changes
+  neither the abstract state nor the invariant.
+
+Not covered by a theorem (tied by the `wal` engine only): `Save` with a *received* snapshot,
+`DeleteGroup`, and the size-limited `Entries` read.
 -/
 namespace Anndb.C06
 open Anndb.Wal Anndb.WalKeys Anndb.Codec
@@ -116,6 +130,41 @@ theorem isolation_batch (g g' : Key) (hg : g.length = 16) (hg' : g'.length = 16)
     obtain ⟨a, b, c⟩ := ih (applyOp g db op) (fun o ho => hops o (List.mem_cons_of_mem _ ho))
     obtain ⟨a', b', c'⟩ := isolation_op g g' hg hg' hne db op i hi (hops op List.mem_cons_self).1 (hops op List.mem_cons_self).2
     exact ⟨a.trans a', b.trans b', c.trans c'⟩
+
+/-! ## refinement -/
+
+/-- **C06 (storage contract, every history).** -/
+theorem store_refines_memorystorage (ops : List WOp)
+    (hes : ∀ hs es, WOp.append hs es ∈ ops → Contig es) (m' : Mem)
+    (hm : runM Mem.init ops = some m') :
+    ∃ w', runW Wal.fresh ops = some w' ∧ WF w' ∧ abs w' = m' :=
+  run_refines ops Wal.fresh Mem.init m' wf_fresh.1 wf_fresh.2 hes hm
+
+/-- **C06 (reads).** -/
+theorem reads_agree (w : Wal) (h : WF w) (i : Nat) :
+    (∃ w', w.firstIndex = .ok ((abs w).firstIndex, w') ∧ w'.disk = w.disk ∧ WF w') ∧
+    w.lastIndex = .ok (abs w).lastIndex ∧
+    (w.term i).map (·.1) = (abs w).term i ∧
+    w.snapshot = (abs w).snap ∧ w.hardState = (abs w).hs :=
+  ⟨firstIndex_refines w h, lastIndex_refines w h, term_refines w h i, snapshot_refines w h, rfl⟩
+
+/-- **C06 (across reopen).** -/
+theorem reopen_changes_nothing (w : Wal) (h : WF w) :
+    WF (Wal.open_ w.disk) ∧ abs (Wal.open_ w.disk) = abs w := reopen_refines w h
+
+/-- non-vacuity: a history with an overwrite of an uncommitted tail, a compaction, a reopen and a
+further batch is legal for the specification -/
+def demoHistory : List WOp :=
+  [.append ⟨1, 1, 0⟩ [⟨1, 1, 10, 1⟩, ⟨2, 1, 11, 1⟩, ⟨3, 1, 12, 1⟩],
+   .append ⟨2, 2, 1⟩ [⟨3, 2, 13, 1⟩, ⟨4, 2, 14, 1⟩],
+   .compact 2 7 99, .reopen,
+   .append ⟨2, 2, 4⟩ [⟨5, 2, 15, 1⟩]]
+
+example : (runM Mem.init demoHistory).map (fun m => (m.firstIndex, m.lastIndex, m.snap.index)) = some (3, 5, 2) := by
+  decide
+
+example : (runW Wal.fresh demoHistory).map (fun w => w.disk.ents.map (·.index)) = some [2, 3, 4, 5] := by
+  decide
 
 /-- the key layout in the code is the one modelled (regenerated facts) -/
 theorem key_layout_in_code :
